@@ -160,11 +160,28 @@ class Env:
         return dev
 
     def select(self, rlist, wlist, xlist, timeout=None):
-        for sock in list(rlist) + list(wlist) + list(xlist):
-            if sock.closed:
-                raise ValueError("file descriptor cannot be a negative integer (-1)")
-        readable = [sock for sock in rlist if (sock.rx or sock.peer_closed or sock.reset)]
-        return readable, list(wlist), []
+        """select(2) on fake sockets: a connected socket is always writable; returns at once when something is ready,
+        otherwise blocks (virtual time) for the timeout - for ever with timeout None - like the real call."""
+        def ready():
+            for sock in list(rlist) + list(wlist) + list(xlist):
+                if sock.closed:
+                    raise ValueError("file descriptor cannot be a negative integer (-1)")
+            return [sock for sock in rlist if (sock.rx or sock.peer_closed or sock.reset)], list(wlist), []
+
+        out = ready()
+        if out[0] or out[1] or out[2]:
+            return out
+        sched = S.ACTIVE
+
+        def something():
+            try:
+                r = ready()
+            except ValueError:
+                return True
+            return bool(r[0] or r[1] or r[2])
+
+        sched.block(something, ("select.wait",), timeout=timeout)
+        return ready()
 
 
 def run_one(kind, connect_answers, actions, prefix):
@@ -548,10 +565,31 @@ def watchdog_threaded(pattern):
         return sock
 
     def select(rlist, wlist, xlist, timeout=None):
-        for sock in list(rlist) + list(wlist) + list(xlist):
-            if sock.closed:
-                raise ValueError("closed")
-        return [sock for sock in rlist if sock.due()], list(wlist), []
+        def ready():
+            for sock in list(rlist) + list(wlist) + list(xlist):
+                if sock.closed:
+                    raise ValueError("closed")
+            return [sock for sock in rlist if sock.due()], list(wlist), []
+
+        out = ready()
+        if out[0] or out[1] or out[2]:
+            return out
+        # nothing ready: the real select blocks (for ever with timeout None) until the peer sends something
+
+        def something():
+            try:
+                r = ready()
+            except ValueError:
+                return True
+            return bool(r[0] or r[1] or r[2])
+
+        # pending answers become due with the passage of virtual time: wake up at the next due time at the latest
+        nxt = min([p[0] for sock in rlist for p in sock.pending] + [float("inf")])
+        wait = timeout
+        if nxt != float("inf"):
+            wait = max(0.0, nxt - S.vtime()) if timeout is None else min(timeout, max(0.0, nxt - S.vtime()))
+        S.ACTIVE.block(something, ("select.wait",), timeout=wait)
+        return ready()
 
     gt.socket = types.SimpleNamespace(create_connection=create_connection, timeout=_socket.timeout)
     gt.select = types.SimpleNamespace(select=select)
